@@ -3,6 +3,9 @@ package main
 import (
 	"github.com/dave/dst/decorator/resolver"
 	"github.com/dave/dst/decorator/resolver/goast"
+	"github.com/dave/dst/decorator/resolver/guess"
 )
 
 func goastNew() resolver.DecoratorResolver { return goast.New() }
+
+func guessNew() resolver.RestorerResolver { return guess.New() }
